@@ -27,6 +27,10 @@ PCHECK = ("Ref.Lexer Ref.Parser Ref.TreeOf",
           "Definition known (t : term) : bool := kf_c06 t.\n")
 
 
+class NegEnum(__import__("enum").Enum):
+    minus_two = -2
+
+
 class Leafs:
     def __init__(self):
         self.n = 0
@@ -44,12 +48,21 @@ class Leafs:
             return T.ValueWrapper(-3)
         if kind == "zero":
             return T.ValueWrapper(0)
+        # values written with a leading minus sign that are not "< 0" numbers
+        if kind == "negzero":
+            return T.ValueWrapper(-0.0)
+        if kind == "negdec":
+            return T.ValueWrapper(__import__("decimal").Decimal("-1.5"))
+        if kind == "neglit":
+            return T.LiteralValue("-1")
+        if kind == "negenum":
+            return T.ValueWrapper(NegEnum.minus_two)
         if kind == "str":
             return T.ValueWrapper("s")
         raise KeyError(kind)
 
 
-LEAF_KINDS = ["field", "pos", "neg", "str"]
+LEAF_KINDS = ["field", "pos", "neg", "str", "negzero", "negdec", "neglit", "negenum"]
 ARITH = {"add": lambda a, b: a + b, "sub": lambda a, b: a - b, "mul": lambda a, b: a * b, "div": lambda a, b: a / b}
 CMP = {"eq": lambda a, b: a == b, "ne": lambda a, b: a != b, "lt": lambda a, b: a < b, "gte": lambda a, b: a >= b,
        "like": lambda a, b: T.BasicCriterion(P.enums.Matching.like, a, b)}
@@ -98,6 +111,7 @@ def triples():
 
 
 BOOLKINDS = list(CONN) + ["not"]
+ARITHKINDS = list(ARITH) + ["neg"]
 
 
 def chains3(kinds=None):
@@ -106,7 +120,7 @@ def chains3(kinds=None):
         for gpos in range(KINDS[gk][0]):
             for pk in kinds:
                 for ppos in range(KINDS[pk][0]):
-                    for ck in kinds + (["neg_leaf"] if kinds is OPKINDS else ["eq"]):
+                    for ck in kinds + (["neg_leaf"] if kinds is OPKINDS or kinds is ARITHKINDS else ["eq"]):
                         L = Leafs()
                         c = L.leaf("neg") if ck == "neg_leaf" else build(ck, [], L)
                         yield ("chain3", gk, gpos, pk, ppos, ck), node_with_child_at(gk, gpos, node_with_child_at(pk, ppos, c, L), L)
@@ -129,7 +143,8 @@ def items(run, rng):
             name, base = ctxs[(k + j * 3) % 6]
             yield obj, [(name, base, "inline")], {"gen": meta}
         k += 1
-    for meta, obj in (chains3() if run.tier == "thorough" else chains3(BOOLKINDS)):
+    import itertools as _it
+    for meta, obj in (chains3() if run.tier == "thorough" else _it.chain(chains3(BOOLKINDS), chains3(ARITHKINDS))):
         if True:
             name, base = ctxs[k % 6]
             k += 1
